@@ -242,7 +242,7 @@ impl<'a, 'o, 'c> CommonMarkFormatter<'a, 'o, 'c> {
 
         if needs_escaping {
             if escaping == Escaping::Url && isspace(c) {
-                write!(self.v, "%{:2X}", c).unwrap();
+                write!(self.v, "%{:02X}", c).unwrap();
                 self.column += 3;
             } else if ispunct(c) {
                 write!(self.v, "\\{}", c as char).unwrap();
